@@ -558,11 +558,14 @@ pub fn request_strategy(ent: &EntitySpec, p: Profile) -> BoxedStrategy<ReqSpec> 
         maybe(p.cond, tag_list(&ent.etag, 3)),
         maybe(p.cond, date_value(ent.mtime)),
         maybe(p.cond, date_value(ent.mtime)),
+        // the request's HTTP version (serve never looks at it)
+        prop_oneof![5 => Just(0u8), 1 => 1u8..=4],
     )
-        .prop_map(|(method, range, if_range, im, inm, ims, ius)| {
+        .prop_map(|(method, range, if_range, im, inm, ims, ius, version)| {
             let mut r = ReqSpec {
                 method,
                 headers: vec![],
+                version,
             };
             if let Some(v) = range {
                 r.headers.push(("range".into(), Bs::s(&v)));
